@@ -16,6 +16,8 @@ from . import common
 from .common import cps
 
 _S = {}
+# which variant of the code the working tree follows (probed once per run by `probe_variants`, see findings/nwu)
+VARIANT = {'lockstep': False}
 
 
 def _mod():
@@ -258,7 +260,7 @@ def to_ops(rec):
     base = [cps(src), cps(rec['conn'] or ''), str(rec['mpl']), '1' if rec['is_cur'] else '0', '1' if rec['is_dim'] else '0',
             _mrs(pm), _mrs(sm), _mrs(nums1), _mrs(nums2), (','.join(cuts) if cuts else '_'),
             _lst(['%d:%d' % (s, l) for (s, l, e) in rec['nonunit']]), '1' if rec['has_sep'] else '0',
-            _lst(['%d:%s' % (s, cps(g)) for (s, g) in sep]), cps(rec['amb_term']), _mask(mask1), _mask(mask2), _mask(half)]
+            _lst(['%d:%s' % (s, cps(g)) for (s, g) in sep]), cps(rec['amb_term']), _mask(mask1), _mask(mask2), _mask(half), '1' if VARIANT['lockstep'] else '0']
     ops = []
     flags = rec['select'][0]['flags'] if rec['select'] else None
     if rec['filter_raised']:
@@ -395,8 +397,30 @@ def _extractor_for(mt, cul, k):
     return _S[key]
 
 
-def run_chunk(tasks):
-    """worker: [(mt, cul, k, family, query)] -> [(task, ops, stats)]"""
+PROBE_SELECT = 'model 5usd3 costs 7 dollars'
+
+
+def probe_variants():
+    """Which variant of `extract` does the working tree follow? (No instrumentation: one plain call.)
+    English currency, `model 5usd3 costs 7 dollars`: the number loop produces `5usd` and `7 dollars`, the ambiguity filter
+    removes the first. Before findings/nwu/select-candidates-misaligned.diff `_select_candidates` still gets two flags and
+    indexes past the one remaining result (IndexError, swallowed by the model's parse: the query returns nothing);
+    with it `7 dollars` comes out. Anything else is left to the correspondence (model = unfiltered flags)."""
+    from . import recog
+    EX = _mod()
+    ex = EX.NumberWithUnitExtractor(recog.get_model('NumberWithUnit', 'CurrencyModel', 'en-us').extractor_parser[0].extractor.config)
+    try:
+        out = ex.extract(PROBE_SELECT)
+    except IndexError:
+        return {'lockstep': False, 'probe': 'IndexError'}
+    got = [(e.start, e.length, e.text) for e in out]
+    return {'lockstep': got == [(18, 9, '7 dollars')], 'probe': got}
+
+
+def run_chunk(arg):
+    """worker: (variant, [(mt, cul, k, family, query)]) -> [(task, ops, stats)]"""
+    variant, tasks = arg
+    VARIANT.update(variant)
     common.setup_repo_imports()
     import warnings
     warnings.filterwarnings('ignore')
